@@ -201,6 +201,12 @@ func (s *clientSocket) registerSubEvents() {
 	)
 
 	s.activeMu.Lock()
+	if s.subDeregister != nil {
+		// Already subscribed (`Connect` was called again before the socket was connected).
+		// A second subscription would run everything twice, and the first one could never be removed.
+		s.activeMu.Unlock()
+		return
+	}
 	s.active = true
 	s.manager.openHandlers.onSubEvent(&openFunc)
 	s.manager.errorHandlers.onSubEvent(&errorFunc)
